@@ -59,6 +59,8 @@ def choose_pairs(ctx: Ctx, kind: str, n: int) -> list[tuple[str, str]]:
     # long names that agree in their first 100+ characters (a derivation that truncates would merge them)
     stem = "accountsReceivableReconciliationAndSettlementReportingServiceForTheEuropeanRegionIncludingAllSubsidiariesAndBranches"
     pairs[-2:] = [(stem + "Alpha", stem + "Beta"), (stem + "_x", stem + "_y")]
+    if kind == "properties":
+        pairs[-4:-2] = [("", "a"), ("unnamed", "")]     # the empty string is a legal JSON key
     return pairs
 
 
@@ -89,6 +91,8 @@ def pair_features(a: str, b: str) -> list[str]:
         f.append("name_without_alphanumerics")
     if any(ord(ch) > 127 for ch in a + b):
         f.append("non_ascii_name")
+    if a == "" or b == "":
+        f.append("empty_string_name")
     if f:
         f.append("collision_prone_names")
     import re
